@@ -1,4 +1,4 @@
-import Gsd.Proofs.Lemmas.Pipeline
+import Gsd.Proofs.Lemmas.PipelineKeys
 import Mathlib.Algebra.Order.Group.Multiset
 /-!
 # C01 — every datapoint lands in exactly one flush
@@ -277,5 +277,85 @@ theorem C01_set_members (k : Key) (x : String) (ops : NumOps α) (h : Key → Na
     ((run ops h n (init n) as).flushed.map (fun p => ((lookup k p.2.sets).map (fun s => decide (x ∈ s.members))).getD false)).foldr (· || ·) false =
     ((run ops h n (init n) as).arrived.map (fun m => ((lookup k m.sets).map (fun s => decide (x ∈ s.members))).getD false)).foldr (· || ·) false :=
   C01_quiescent (setMemberAt (α := α) k x) ops h n hn as hp hq ha
+
+/-- **C01_no_phantom.**  Whatever the interleaving, a series that appears in any flush view was contained in
+some parsed batch (persisted series included): nothing is reported for a series that was never sent. -/
+theorem C01_no_phantom (ops : NumOps α) (h : Key → Nat) (n : Nat) (as : List (Action α))
+    (p : Nat × MM α) (hp : p ∈ (run ops h n (init n) as).flushed) (t : MType) (k : Key) (hk : present p.2 t k) :
+    ∃ m ∈ (run ops h n (init n) as).arrived, present m t k :=
+  ((kinv_run ops h n as (init n) (inv_init n) (kinv_init h n)).2.2.2.2 p hp t k hk).2
+
+/-- **C01_shard_local.**  A series is only ever reported by the shard its identity routes to (`h k % n`), and a
+view holds each series at most once (it is a map) — so no series is reported twice within one flush of
+all shards. -/
+theorem C01_shard_local (ops : NumOps α) (h : Key → Nat) (n : Nat) (as : List (Action α))
+    (p : Nat × MM α) (hp : p ∈ (run ops h n (init n) as).flushed) (t : MType) (k : Key) (hk : present p.2 t k) :
+    h k % n = p.1 :=
+  ((kinv_run ops h n as (init n) (inv_init n) (kinv_init h n)).2.2.2.2 p hp t k hk).1
+
+/-- every view handed to the backends is a map: no series occurs twice in it -/
+theorem C01_view_wf (ops : NumOps α) (h : Key → Nat) (n : Nat) (as : List (Action α)) :
+    ∀ p ∈ (run ops h n (init n) as).flushed, p.2.WF := by
+  -- views are aggregates at the time of the flush; aggregates are always well formed
+  have key : ∀ (as : List (Action α)) (s : State α), Inv n s → (∀ p ∈ s.flushed, p.2.WF) →
+      ∀ p ∈ (run ops h n s as).flushed, p.2.WF := by
+    intro as
+    induction as with
+    | nil => intro s _ hf; exact hf
+    | cons a t ih =>
+      intro s hinv hf
+      simp only [run, List.foldl_cons]
+      cases hs : step ops h n s a with
+      | none => simp only [hs, Option.getD_none]; exact ih s hinv hf
+      | some s' =>
+        simp only [hs, Option.getD_some]
+        apply ih s' (inv_step ops h n s s' a hinv hs)
+        cases a with
+        | arrive ds => simp only [step, Option.some.injEq] at hs; subst hs; exact hf
+        | enqueue j =>
+          simp only [step] at hs
+          cases hj : s.pending[j]? with
+          | none => simp [hj] at hs
+          | some ip =>
+            simp only [hj] at hs
+            split at hs
+            · simp only [Option.some.injEq] at hs; subst hs; exact hf
+            · simp at hs
+        | deliver i =>
+          simp only [step] at hs
+          cases hq : s.queues[i]? with
+          | none => simp [hq] at hs
+          | some q =>
+            cases q with
+            | nil => simp [hq] at hs
+            | cons p rest =>
+              simp only [hq] at hs
+              split at hs
+              · simp only [Option.some.injEq] at hs; subst hs; exact hf
+              · simp at hs
+        | flushShard i ex =>
+          simp only [step] at hs
+          cases ha : s.aggs[i]? with
+          | none => simp [ha] at hs
+          | some a =>
+            simp only [ha, Option.some.injEq] at hs; subst hs
+            intro p hp
+            rcases List.mem_append.mp hp with hp | hp
+            · exact hf p hp
+            · simp at hp; subst hp
+              exact hinv.2.2.1 a (List.mem_of_getElem? ha)
+  exact key as (init n) (inv_init n) (by simp [init])
+
+/-- non-vacuity: a concrete two-shard schedule in which a flush falls between the two pieces of one batch -/
+example :
+    let ops : NumOps Int := { toCount := fun v _ => v, invRate := fun _ => 1 }
+    let d1 : Dp Int := { name := "a", tagsKey := "", ty := .counter, value := 3, rate := 1, sval := "", ts := 1, src := "", tags := [] }
+    let d2 : Dp Int := { name := "bb", tagsKey := "", ty := .counter, value := 4, rate := 1, sval := "", ts := 1, src := "", tags := [] }
+    let s := run ops (fun k => k.1.length) 2 (init 2)
+      [.arrive [d1, d2], .enqueue 0, .deliver 0, .flushShard 0 (fun _ => false), .flushShard 1 (fun _ => false),
+       .enqueue 0, .deliver 1, .flushShard 0 (fun _ => false), .flushShard 1 (fun _ => false)]
+    s.pending = [] ∧ s.flushed.map (fun p => (p.1, p.2.counters.map (fun e => (e.1.1, e.2.value)))) =
+      [(0, [("bb", 4)]), (1, []), (0, [("bb", 0)]), (1, [("a", 3)])] := by
+  decide
 
 end Gsd
